@@ -157,7 +157,7 @@ pub fn run(ctx: &Ctx, replay: Option<&J>) -> CheckResult {
         return CheckResult { evidence: ev, rule, assumptions, violations: vs };
     }
     let corp = corpus(ctx.seed);
-    let cases = ctx.n(150_000, 5_000_000);
+    let cases = ctx.n(1_200_000, 30_000_000);
     let (mut ev, mut vs) = pt_run(
         ctx,
         "c01a",
@@ -203,7 +203,7 @@ pub fn run(ctx: &Ctx, replay: Option<&J>) -> CheckResult {
     );
     // (B)
     let golden_all = crate::pool::golden_frames();
-    let per_type = ctx.n(1500, 50_000);
+    let per_type = ctx.n(12_000, 300_000);
     let parts: Vec<(Evidence, Vec<Violation>)> = MSG_TABLE
         .par_iter()
         .map(|row| {
